@@ -760,26 +760,6 @@ def judge_sequence(sim, outs, idx, active):
             if len(s['rhs']) > 1 and m2:
                 written[m2.group(1)] = s['rhs'][1]
 
-        # the second assignment of a statement list sees the store after the first one
-        newv = dict((l, v) for l, v, _ in model)
-        env_mid = env_of_locations([(l, s.get('mid', newv.get(l)) if l == tgt else v, c) for l, v, c in before] +
-                                   [(l, s.get('mid', v), c) for l, v, c in model if l == tgt and l not in dict((a, b) for a, b, _ in before)])
-
-        def explained(texts, observed_value=None, outcome=None):
-            fired_all, ok = set(), False
-            for tx in texts:
-                e = env_mid if (len(s['rhs']) > 1 and tx == s['rhs'][1]) else env
-                pred, fired = asis.outcomes(tx, e)
-                if fired and ((outcome is not None and (outcome,) in pred) or
-                              (observed_value is not None and matches(('V', observed_value), pred))):
-                    ok = True; fired_all |= fired
-            return sorted(fired_all) if ok else None
-
-        if o[0] != 'OK':
-            texts = list(s['rhs'])
-            m = re.match(r'\w+\[(.*)\]$', s['target'])
-            if m: texts.append(m.group(1))
-            return si, 'stmt:%s:%s:%s' % (s['api'], s['form'], MODE.get(o[0], o[0])), explained(texts, outcome=o[0]), {'answer': list(o)}
         # as-is prediction for the locations this step writes; the second assignment of a list sees the store as the code
         # under test left it after the first one
         pred = {}
@@ -795,6 +775,19 @@ def judge_sequence(sim, outs, idx, active):
                         mid.append((tgt, v1[0], 'field'))
                     p2, f2 = asis.outcomes(s['rhs'][1], env_of_locations(mid))
                     pred[m2.group(1)] = (p2, f1 | f2)
+                elif m2 and f1:
+                    # the first assignment already left the defined behaviour of the as-is model: nothing can be predicted
+                    pred[m2.group(1)] = ({('ANYVALUE',), ('CRASH',), ('ERR',)}, f1)
+        if o[0] != 'OK':
+            cands = list(pred.values())
+            m = re.match(r'\w+\[(.*)\]$', s['target'])
+            if m:
+                cands.append(asis.outcomes(m.group(1), env))
+            fired = set()
+            for pset, f in cands:
+                if f and (o[0],) in pset:
+                    fired |= f
+            return si, 'stmt:%s:%s:%s' % (s['api'], s['form'], MODE.get(o[0], o[0])), sorted(fired) or None, {'answer': list(o)}
         dev = [(loc, v, cls, ob) for (loc, v, cls), ob in zip(model, rb) if ob != ('V', v)]
         if dev:
             fired = set()
@@ -1130,14 +1123,19 @@ def main(tier, replay):
             chk.inconc(out)
         else:
             chk.report(key, out, '%s %r must be an error, observed %r %s' % (out['cmd'], out['text'], out['observed'], out.get('reports')))
-    for c in sorted(unexplained['seq'], key=lambda c: len(c['steps']))[:budget]:
-        key, out = shrink_sequence(binary, c, active)
+    # sequences carry their key from the first divergence already; only the smallest one per key is minimised
+    bykey = collections.defaultdict(list)
+    for c in unexplained['seq']:
+        bykey[c['key']].append(c)
+    for k0, cs in sorted(bykey.items()):
+        cs.sort(key=lambda c: len(c['steps']))
+        key, out = shrink_sequence(binary, cs[0], active)
         if key is None:
             chk.inconc(out)
         else:
-            chk.report(key, out, 'statements %r: %r %s' % (out['statements'], out['detail'], out.get('report') or ''))
-    left = more + sum(max(0, len(unexplained[t]) - budget) for t in unexplained)
-    chk.add('deviations_shrunk_against_code', min(len(todo), budget) + min(len(unexplained['error']), budget) + min(len(unexplained['seq']), budget))
+            chk.report(key, out, 'statements %r: %r %s' % (out['statements'], out['detail'], out.get('report') or ''), n=len(cs))
+    left = more + sum(max(0, len(unexplained[t]) - budget) for t in ('bulk', 'error'))
+    chk.add('deviations_shrunk_against_code', json.dumps({'value': min(len(todo), budget), 'error': min(len(unexplained['error']), budget), 'sequence_keys': len(bykey)}))
     if left and not chk.violations:
         chk.inconc('%d deviations beyond the shrink budget were not classified' % left)
     chk.add('stale_findings', len(stale_findings(chk, binary)))
